@@ -550,7 +550,8 @@ class BasicContiguousVector<cntgs::Options<Option...>, Parameter...>
     template <class... TOption>
     constexpr auto equal(const cntgs::BasicContiguousVector<cntgs::Options<TOption...>, Parameter...>& other) const
     {
-        if constexpr (ListTraits::IS_EQUALITY_MEMCMPABLE)
+        // comparing the whole block bytewise is only possible when it contains no alignment padding
+        if constexpr (ListTraits::IS_EQUALITY_MEMCMPABLE && alignof(StorageElementType) == 1)
         {
             if (empty())
             {
@@ -571,7 +572,8 @@ class BasicContiguousVector<cntgs::Options<Option...>, Parameter...>
     constexpr auto lexicographical_compare(
         const cntgs::BasicContiguousVector<cntgs::Options<TOption...>, Parameter...>& other) const
     {
-        if constexpr (ListTraits::IS_LEXICOGRAPHICAL_MEMCMPABLE && ListTraits::IS_FIXED_SIZE_OR_PLAIN)
+        if constexpr (ListTraits::IS_LEXICOGRAPHICAL_MEMCMPABLE && ListTraits::IS_FIXED_SIZE_OR_PLAIN &&
+                      alignof(StorageElementType) == 1)
         {
             if (empty())
             {
